@@ -256,6 +256,8 @@ func (c *Client) validateVirtualChannelFundingProposal(
 		return errors.New("virtual channel flag not set")
 	case len(prop.Initial.State.Locked) > 0:
 		return errors.New("cannot have locked funds")
+	case len(prop.Initial.Params.Parts) != prop.Initial.State.NumParts() || len(prop.Initial.Sigs) != len(prop.Initial.Params.Parts):
+		return errors.New("state or signatures do not match number of participants")
 	}
 
 	// Validate signatures.
@@ -275,8 +277,8 @@ func (c *Client) validateVirtualChannelFundingProposal(
 	}
 
 	// Validate index map.
-	if len(prop.Initial.Params.Parts) != len(prop.IndexMap) {
-		return errors.New("index map: invalid length")
+	if !validIndexMap(prop.IndexMap, len(prop.Initial.Params.Parts), ch.state().NumParts()) {
+		return errors.New("index map: invalid length or index")
 	}
 
 	// Assert not contained before
